@@ -53,6 +53,8 @@ CORE_LIST = [("assign", (1, 0)), ("assign", (0, 3)), ("assign_self",), ("iadd", 
 CORE_SET = [("assign", (1, 0)), ("assign_self",), ("ior", (2,)), ("add", 0), ("add", 2), ("update", (0, 1)),
             ("update_gen", (1, 2))]
 INIT = [(), (0,), (0, 1)]
+ADDITIVE = {"append", "extend", "extend_gen", "extend_tuple", "extend_self", "extend_itself", "insert", "insert_end", "iadd",
+            "iadd_gen", "iadd_alias"}
 
 
 def cases(tier, seed):
@@ -60,11 +62,16 @@ def cases(tier, seed):
     b = BOUNDS[tier]
     for field, ops, core in (("list", LIST_OPS, CORE_LIST), ("set", SET_OPS, CORE_SET)):
         for init in INIT:
-            for how in ("append", "assign", "ctor", "ctor_shared"):
+            for how in ("append", "assign", "ctor", "ctor_shared", "ctor_subproperty"):
                 if how != "append" and not init:
+                    continue
+                if how == "ctor_subproperty" and (field != "list" or init != (0,)):
                     continue
                 for k in range(1, b["seq_len"] + 1):
                     for seq in itertools.product(ops, repeat=k):
+                        if how == "ctor_subproperty" and not all(op[0] in ADDITIVE for op in seq):
+                            # overwriting or re-assigning a field that holds an inferred value is a retraction
+                            continue
                         out.append((field, init, how, seq))
                 if "seq_len_core_ops" in b and how in ("append", "assign"):
                     k = b["seq_len_core_ops"]
@@ -125,7 +132,11 @@ class World:
             self.fname = "members"
         self.other = [O.VCompany("bystander"), O.VPerson("bystander_p")]
         vals = [self.univ[i] for i in init]
-        if how in ("ctor", "ctor_shared"):
+        if how == "ctor_subproperty":
+            # the constructor sets a SUB-property (works_for), whose super-property field (member_of, the field under
+            # test) is declared later in the dataclass: the value is inferred into a field that __init__ has not reached
+            self.owner = O.VPerson("owner", works_for=vals[0])
+        elif how in ("ctor", "ctor_shared"):
             # the first write of the field happens in the constructor: with a plain collection, or with the managed
             # field of ANOTHER instance (dataclasses.replace(obj, name=...) does exactly that)
             if how == "ctor":
@@ -308,8 +319,15 @@ def run_case(case):
             changed = changed or before != w.model
             res.transitions += 1
         got = w.contents()
+        inferred_extra = None
+        if how == "ctor_subproperty":
+            # the owner works for c0, so c0 is a member_of value by inference whatever is written to the field; where in
+            # the list an inferred value sits (and whether it is repeated) is not defined: elements are compared as a set
+            inferred_extra = w.univ[0]
         names = lambda xs: [repr(x) for x in xs]
-        if field == "list":
+        if inferred_extra is not None:
+            ok = {id(x) for x in got} == {id(x) for x in w.model} | {id(inferred_extra)}
+        elif field == "list":
             ok = len(got) == len(w.model) and all(a is b for a, b in zip(got, w.model))
         else:
             ok = len(got) == len(w.model) and {id(x) for x in got} == {id(x) for x in w.model}
